@@ -2,7 +2,7 @@
    strings: comma separated code points, "-" = empty.
    value: B1 B0 I<z> S<str> N L<str>|<str>...   dict: "-" or <name>=<value>;...  codec: "-" or <str>=<cls>;...
    pv <relaxed> <name> <text> <codec>
-   pl <relaxed> <ignore_unknown> <cur dict> <text> <codec>
+   pl <strict> <relaxed> <ignore_unknown> <cur dict> <text> <codec>
    int <text>
    sc <directive> <scope>
    vm <options dict> <header dict> <queried names ;-separated> <forest tokens ...>
@@ -42,7 +42,7 @@ let dec_codec s = List.map (dec_pair n_of_string) (split_nonempty ';' s)
 
 let enc_err = function
   | EBadBool -> "EBadBool" | EBadInt -> "EBadInt" | EBadEnum -> "EBadEnum" | ETypeError -> "ETypeError"
-  | EAssertion -> "EAssertion" | EAttribute -> "EAttribute" | EExpectedEq -> "EExpectedEq" | EUnknown -> "EUnknown" | ECodec -> "ECodec"
+  | EAssertion -> "EAssertion" | EAttribute -> "EAttribute" | EExpectedEq -> "EExpectedEq" | EUnknown -> "EUnknown" | ECodec -> "ECodec" | ENotSettable -> "ENotSettable"
 
 let kind_of = function
   | "F" -> KFunc | "C" -> KClass | "X" -> KCClass | "W" -> KWith | "P" -> KProbe | _ -> failwith "kind"
@@ -80,8 +80,8 @@ let handle = function
       (match g_parse_value (dec_codec codec) (bool_of_string relaxed) (str_of name) (str_of text) with
        | Ok v -> "OK " ^ enc_value v
        | Err (e, w) -> "ERR " ^ enc_err e ^ " " ^ enc_str w)
-  | ["pl"; relaxed; ignore; cur; text; codec] ->
-      (match g_parse_list (dec_codec codec) (bool_of_string relaxed) (bool_of_string ignore) (dec_dict cur) (str_of text) with
+  | ["pl"; strict; relaxed; ignore; cur; text; codec] ->
+      (match g_parse_list (bool_of_string strict) (dec_codec codec) (bool_of_string relaxed) (bool_of_string ignore) (dec_dict cur) (str_of text) with
        | Ok d -> "OK " ^ enc_dict d
        | Err (e, w) -> "ERR " ^ enc_err e ^ " " ^ enc_str w)
   | ["int"; text] ->
